@@ -33,24 +33,25 @@ inductive Token where
   | cdata (t : Span) (range : Range)
 deriving Repr, BEq, DecidableEq
 
-/-- Token-emitting computations: the accumulator holds the emitted tokens, newest first. -/
-def TM (α : Type) := List Token → List Token × Res α
+/-- Token-emitting computations (a writer monad): the tokens emitted, in order, and the outcome.
+A failure keeps the tokens emitted before it — the sink has already seen them. -/
+def TM (α : Type) := List Token × Res α
 
 namespace TM
-@[inline] def pure' {α} (a : α) : TM α := fun acc => (acc, .ok a)
-@[inline] def bind' {α β} (m : TM α) (f : α → TM β) : TM β := fun acc =>
-  match m acc with
-  | (acc', .ok a) => f a acc'
-  | (acc', .err e) => (acc', .err e)
-  | (acc', .panic s) => (acc', .panic s)
-  | (acc', .fuel) => (acc', .fuel)
+@[inline] def pure' {α} (a : α) : TM α := ([], .ok a)
+@[inline] def bind' {α β} (m : TM α) (f : α → TM β) : TM β :=
+  match m with
+  | (t1, .ok a) => let r := f a; (t1 ++ r.1, r.2)
+  | (t1, .err e) => (t1, .err e)
+  | (t1, .panic s) => (t1, .panic s)
+  | (t1, .fuel) => (t1, .fuel)
 instance : Monad TM where
   pure := pure'
   bind := bind'
 /-- emit a token to the sink -/
-@[inline] def emit (t : Token) : TM Unit := fun acc => (t :: acc, .ok ())
+@[inline] def emit (t : Token) : TM Unit := ([t], .ok ())
 /-- run a token-free computation -/
-@[inline] def lift {α} (r : Res α) : TM α := fun acc => (acc, r)
+@[inline] def lift {α} (r : Res α) : TM α := ([], r)
 end TM
 
 open TM
@@ -388,34 +389,39 @@ def parseElement (s : Stream) : TM Stream := do
   let (s, opened) ← parseStartTag T txt s
   if opened then parseContent T txt (s.rest.length + 1) 0 s else pure s
 
-/-- `tokenizer::parse`: the whole document. -/
-def parseDocument (allowDtd : Bool) : TM Unit := do
+/-- The part of `tokenizer::parse` before the DOCTYPE test: BOM, XML declaration, Misc, spaces. -/
+def parseProlog : TM Stream := do
   let s := Stream.new txt
   let s ← if s.startsWith Lit.bom then lift (s.advance 3) else pure s
   let s ← if s.startsWith Lit.xmlDecl then lift (parseDeclaration T txt s) else pure s
   let s ← parseMisc T txt (s.rest.length + 1) s
-  let s := s.skipSpaces T
-  let s ← if s.startsWith Lit.doctype then
-      if !allowDtd then lift (.err .dtdDetected)
-      else do
-        let s ← parseDoctype T txt s
-        parseMisc T txt (s.rest.length + 1) s
-    else pure s
+  pure (s.skipSpaces T)
+
+/-- The part of `tokenizer::parse` after the DOCTYPE: root element, Misc, end of input. -/
+def parseBody (s : Stream) : TM Unit := do
   let s := s.skipSpaces T
   let s ← if s.currByte? == some bLt then parseElement T txt s else pure s
   let s ← parseMisc T txt (s.rest.length + 1) s
   if !s.atEnd then lift (errAt txt .unknownToken s.pos) else pure ()
 
+/-- `tokenizer::parse`: the whole document. `allow_dtd` is consulted at exactly one branch. -/
+def parseDocument (allowDtd : Bool) : TM Unit := do
+  let s ← parseProlog T txt
+  if s.startsWith Lit.doctype then
+    if !allowDtd then lift (.err .dtdDetected)
+    else do
+      let s ← parseDoctype T txt s
+      let s ← parseMisc T txt (s.rest.length + 1) s
+      parseBody T txt s
+  else parseBody T txt s
+
 /-- Tokens in emission order and the way the tokenizer stopped. -/
-def tokenize (allowDtd : Bool) : List Token × Res Unit :=
-  let (acc, r) := parseDocument T txt allowDtd []
-  (acc.reverse, r)
+def tokenize (allowDtd : Bool) : List Token × Res Unit := parseDocument T txt allowDtd
 
 /-- `parse_content` over `text[a..b]`, the way an entity value is expanded. -/
 def tokenizeContent (a b : Nat) : List Token × Res Stream :=
   let s := Stream.ofRange txt a b
-  let (acc, r) := parseContent T txt (s.rest.length + 1) 0 s []
-  (acc.reverse, r)
+  parseContent T txt (s.rest.length + 1) 0 s
 
 end
 
